@@ -179,3 +179,42 @@ def cls_langs():
         assoc('Solo', 'Lone', 'l1', '*', '*', 'l2', 'Lone'),
     ], lang_id='org.verif.cls3')
     return out
+
+
+# --------------------------------------------------------------------------- FR family: re-used field names
+
+def fr_lang(asset_order=None, assoc_order=None):
+    """Field names re-used along a chain (File.parent -> Folder, Chunk.parent -> File) and one field-name
+    pair (owner / parts) re-used by two same-named associations between unrelated type pairs.  The
+    declaration order of assets and associations is a parameter: resolution must not depend on it."""
+    assets = {
+        'Folder': asset('Folder', steps=[step('access', 'or')]),
+        'File': asset('File', steps=[step('read', 'or', reaches=[COL(F('parent'), S('access'))]), step('access', 'or'),
+                                     step('spread', 'or', reaches=[COL(F('chunks'), S('scan'))])]),
+        'Chunk': asset('Chunk', steps=[step('scan', 'or', reaches=[COL(F('parent'), S('read')),
+                                                                  COL(COL(F('parent'), F('parent')), S('access'))])]),
+        'Server': asset('Server', steps=[step('use', 'or', reaches=[COL(F('parts'), S('spin'))])]),
+        'Disk': asset('Disk', steps=[step('spin', 'or', reaches=[COL(F('owner'), S('use'))])]),
+        'Office': asset('Office', steps=[step('enter', 'or', reaches=[COL(F('parts'), S('print'))])]),
+        'Printer': asset('Printer', steps=[step('print', 'or', reaches=[COL(F('owner'), S('enter'))])]),
+    }
+    assocs = {
+        'InFolder': assoc('InFolder', 'Folder', 'parent', '1', '*', 'files', 'File'),
+        'InFile': assoc('InFile', 'File', 'parent', '1', '*', 'chunks', 'Chunk'),
+        'HasD': assoc('Has', 'Server', 'owner', '1', '*', 'parts', 'Disk'),
+        'HasP': assoc('Has', 'Office', 'owner', '1', '*', 'parts', 'Printer'),
+    }
+    ao = asset_order or list(assets)
+    ao = list(ao) + [a for a in assets if a not in ao]
+    so = assoc_order or list(assocs)
+    so = list(so) + [a for a in assocs if a not in so]
+    return spec([assets[a] for a in ao], [assocs[a] for a in so], lang_id='org.verif.fr')
+
+
+def fr_variants():
+    import itertools
+    out = {}
+    for ao in itertools.permutations(['Folder', 'File', 'Chunk']):
+        for so in (['InFolder', 'InFile', 'HasD', 'HasP'], ['HasP', 'InFile', 'HasD', 'InFolder']):
+            out['FR:' + ''.join(a[:2] for a in ao) + ':' + so[0]] = fr_lang(list(ao), so)
+    return out
